@@ -37,8 +37,11 @@ Step ==
   /\ LET e == Ev[l] IN
      CASE e.k = "chain" /\ e.ph = "start" ->
             /\ open' = open \cup {<<e.t, e.ev>>}
-            /\ flags' = flags \cup (IF \E o \in open : o[1] # e.t /\ o[2] # e.ev THEN {"overlap"} ELSE {})
-                               \cup (IF e.t = "W" /\ e.ev = "cacheSpaceAvailable" /\ sop THEN {"wrace"} ELSE {})
+            \* "wrace"/"overlap" describe the MOST RECENT cacheSpaceAvailable chain of the writer thread
+            /\ flags' = IF e.t = "W" /\ e.ev = "cacheSpaceAvailable"
+                          THEN (flags \ {"wrace", "overlap"}) \cup (IF sop THEN {"wrace"} ELSE {})
+                                 \cup (IF \E o \in open : o[1] # e.t /\ o[2] # e.ev THEN {"overlap"} ELSE {})
+                          ELSE flags \cup (IF WChain(open) /\ e.t # "W" THEN {"overlap"} ELSE {})
             /\ UNCHANGED <<sop, wop, cur>>
        [] e.k = "chain" /\ e.ph = "end" ->
             /\ open' = open \ {<<e.t, e.ev>>} /\ UNCHANGED <<flags, sop, wop, cur>>
